@@ -6,6 +6,8 @@ CTXS = {  # name -> (CTX id, -m flags, bit width)
 KERNELS = {'C12_' + c: dict(src=SRC, flags=['-DNDEBUG', '-DC12_CTX=%d' % i, '-DKSUFFIX=_' + c] + m) for c, (i, m, _) in CTXS.items()}
 OPS = dict(relu=1, relu6=2, sqrt=3, ceil=4, floor=5, softsign=6, hardswish=7, leaky_relu=8, prelu=9, softshrink=10, hardshrink=11, hardtanh=12,
            add=20, subtract=21, multiply=22, divide=23)
+# ops whose two evaluations contain float arithmetic / rounding / sqrt: decided with those operations as uninterpreted functions (LL_UF_FLOAT)
+UF_OPS = {'sqrt', 'ceil', 'floor', 'softsign', 'hardswish', 'leaky_relu', 'prelu', 'softshrink', 'add', 'subtract', 'multiply', 'divide'}
 UNARY = ['relu', 'sqrt', 'ceil', 'floor', 'relu6', 'hardtanh', 'leaky_relu', 'prelu', 'hardshrink', 'softshrink', 'softsign', 'hardswish']
 BINARY = ['add', 'subtract', 'multiply', 'divide']
 
@@ -13,9 +15,10 @@ BINARY = ['add', 'subtract', 'multiply', 'divide']
 def lanes(ctx, ty): return CTXS[ctx][2] // (64 if ty else 32)
 
 
-def cfg(ctx, op, ty, ns=None, **kw):
+def cfg(ctx, op, ty, ns=None, exact=False, **kw):
     L = lanes(ctx, ty)
-    c = {'CTX': CTXS[ctx][0], 'TY': ty, 'OP': OPS[op], 'LL_UNINTERPRETED_SQRT': 1}
+    c = {'CTX': CTXS[ctx][0], 'TY': ty, 'OP': OPS[op]}
+    if op in UF_OPS and not exact: c['LL_UF_FLOAT'] = 1
     if ns is not None: c['NLIST'] = ','.join(str(n) for n in ns)
     nmax = max(ns) if ns is not None else 4 * L + 1
     c['_unwind'] = nmax + 2
@@ -24,12 +27,12 @@ def cfg(ctx, op, ty, ns=None, **kw):
 
 HARNESSES = []
 for ctx in CTXS:
-    HARNESSES.append(dict(name='unary_' + ctx, src='harnesses/C12.c', func='h_unary', kernels=['C12_' + ctx],
+    HARNESSES.append(dict(name='unary_' + ctx, src='harnesses/C12.c', func='h_unary', kernels=['C12_' + ctx], backend='kissat',
                           bounds='1-d hybrid array; element counts listed per query (NLIST; default {1, L-1, L, L+1, 2L+3, 4L+1}, L = lanes); all elements and op parameters symbolic (any bit pattern)',
-                          quick=[cfg(ctx, op, 0) for op in UNARY[:3]], thorough=[]))
-    HARNESSES.append(dict(name='binary_' + ctx, src='harnesses/C12.c', func='h_binary', kernels=['C12_' + ctx],
+                          quick=[cfg(ctx, 'relu6', 0, [lanes(ctx, 0) + 1], NAN_FREE=1), cfg(ctx, 'hardtanh', 0, [lanes(ctx, 0) + 1], NAN_FREE=1), cfg(ctx, 'softshrink', 0, [lanes(ctx, 0) + 1], NAN_FREE=1)], thorough=[]))
+    HARNESSES.append(dict(name='binary_' + ctx, src='harnesses/C12.c', func='h_binary', kernels=['C12_' + ctx], backend='kissat',
                           bounds='two same-shape 1-d hybrid arrays; element counts listed per query; all elements symbolic',
-                          quick=[cfg(ctx, op, 0) for op in BINARY[:1]], thorough=[]))
+                          quick=[cfg(ctx, op, 0, [lanes(ctx, 0) + 1]) for op in BINARY[:1]], thorough=[]))
 OUTSIDE = []
 ASSUMPTIONS = []
 CLAIM = dict(text='', note='')
